@@ -172,6 +172,7 @@ def load_all_ways(text, fail):
         ways = {
             "load_cml(str path)": lambda: Atoms.load_cml(p),
             "load_cml(pathlib)": lambda: Atoms.load_cml(pathlib.Path(p)),
+            "load_cml(path, verbose=True)": lambda: _quiet(lambda: Atoms.load_cml(p, verbose=True)),
             "load_cml(open file)": lambda: _with_open(p, Atoms.load_cml),
             "Atoms.load(path)": lambda: Atoms.load(p),
             "Atoms.load(pathlib)": lambda: Atoms.load(pathlib.Path(p)),
@@ -190,6 +191,12 @@ def load_all_ways(text, fail):
     finally:
         pass
     return res
+
+
+def _quiet(fn):
+    import contextlib
+    with contextlib.redirect_stdout(io.StringIO()):
+        return fn()
 
 
 def _copy_as(p, name):
